@@ -891,6 +891,12 @@ wseed('C06c','C06.R1'); wseed('C07c','C07.R4'); wseed('C08c','C08.R1'); wseed('C
 for b in ['B7','B8','B9','B10','B11','B12']:
     for i in range(1,7):
         wbenign(b,'p%d.diff'%i)
+def wall(name, *edits):
+    for p in PROPS:
+        w(p, 'BENIGN '+name, '', *edits, note='hand-written behaviour-preserving variant, all properties')
+wall('pointer receiver on an opchild keeper helper (GetBaseDenom)', ('x/opchild/keeper/keeper.go','func (k Keeper) GetBaseDenom(','func (k *Keeper) GetBaseDenom('))
+wall('pointer receiver on the L2 sequence helpers', ('x/opchild/keeper/sequences.go','func (k Keeper) IncreaseNextL2Sequence(','func (k *Keeper) IncreaseNextL2Sequence('), ('x/opchild/keeper/sequences.go','func (k Keeper) IncreaseNextL1Sequence(','func (k *Keeper) IncreaseNextL1Sequence('))
+wall('pointer receiver on the validator diff', ('x/opchild/keeper/val_state_change.go','func (k Keeper) ApplyAndReturnValidatorSetUpdates(','func (k *Keeper) ApplyAndReturnValidatorSetUpdates('))
 #@@MORE@@
 for p,l in W.items():
     json.dump(l, open(os.path.join(HERE,p+'.json'),'w'), indent=1)
